@@ -393,6 +393,27 @@ class Impl(object):
             elif kind == "net":
                 g = t.get_webentities_links_iter(out=(args[0] == "1"), include_auto=(args[1] == "1"))
                 render = render_graph
+            elif kind == "crawled":
+                g = t.get_webentity_crawled_pages_iter(int(args[0]), unx_arg_list(args[1]))
+                render = lambda r: "ok " + brack([hx(p["lru"]) + ":" + b01(p["crawled"]) for p in r])  # noqa
+            elif kind == "mostlinked":
+                g = t.get_webentity_most_linked_pages_iter(int(args[0]), unx_arg_list(args[1]), pages_count=int(args[2]),
+                                                           max_depth=opt_nat(args[3]))
+                render = lambda r: "ok " + brack(["%s:%d" % (hx(p["lru"]), p["indegree"]) for p in r])  # noqa
+            elif kind == "children":
+                g = t.get_webentity_child_webentities_iter(int(args[0]), unx_arg_list(args[1]))
+                render = lambda r: "ok " + brack([str(x) for x in sorted(r)])  # noqa
+            elif kind == "pagelinks":
+                g = t.get_webentity_pagelinks_iter(int(args[0]), unx_arg_list(args[1]), include_inbound=(args[2] == "1"),
+                                                   include_internal=(args[3] == "1"), include_outbound=(args[4] == "1"))
+                render = lambda r: "ok " + render_links(r)  # noqa
+            elif kind in ("weout", "wein"):
+                f = t.get_webentity_outlinks_iter if kind == "weout" else t.get_webentity_inlinks_iter
+                g = f(int(args[0]), unx_arg_list(args[1]))
+                render = lambda r: "ok " + brack([str(x) for x in sorted(0 if x is None else x for x in r)])  # noqa
+            elif kind == "netslow":
+                g = t.get_webentities_links_slow_iter(out=(args[0] == "1"), include_auto=(args[1] == "1"))
+                render = render_graph
             else:
                 return "bad-op"
             self.cos[cid] = (g, render)
